@@ -1109,7 +1109,7 @@ def run(chk, replay=None):
                 print('replay: %s :: %s' % (sig, det[:300]))
             return 1 if bad else 0
         G = Gen(V, chk.rng, chk.tier)
-        n = 250 if chk.tier == 'quick' else 3000
+        n = 200 if chk.tier == 'quick' else 3000      # (250 until round 6; the histories and nests added then cost about as much as 50 documents)
         for i in range(n):
             # document 3 (and every 100th) embeds 10-12 sub-documents: folder numbers with two digits
             extreme = None
